@@ -156,13 +156,29 @@ class C13(Prop):
                 if q0 and q0 != q1:
                     out.nontrivial = True
                 # pieces = stream-frame data in order (ground truth), restricted to what the plain run exported
+                # a plain datagram is the concatenation of the data of its STREAM frames; with -a handshake bytes of the
+                # same packet may stand between two frames' data, but every frame's data stays one contiguous piece
+                frames_of = {}
+                for e_ in c.get("expected", []):
+                    fr_ = [bytes.fromhex(m["data"]) for pk in c["dmeta"][e_["dg"]]["pk"] if pk["kind"] not in ("retry", "vneg")
+                           for m in pk["frames"] if m["n"] == "StreamFrame" and m["data"]]
+                    frames_of.setdefault((e_["d"], bytes(e_["payload"])), fr_)
                 j = 0
+                off = 0
                 ok = True
-                for d, piece in q0:
-                    while j < len(q1) and not (q1[j][0] == d and piece in q1[j][1]):
-                        j += 1
-                    if j >= len(q1):
-                        ok = False
+                for d, whole in q0:
+                    for piece in frames_of.get((d, bytes(whole)), [whole]):
+                        while j < len(q1):
+                            at = q1[j][1].find(piece, off) if q1[j][0] == d else -1
+                            if at >= 0:
+                                off = at + len(piece)
+                                break
+                            j += 1
+                            off = 0
+                        if j >= len(q1):
+                            ok = False
+                            break
+                    if not ok:
                         break
                 if not ok:
                     out.violate("application-packets-unchanged", "quic-stream-data-missing-or-reordered-with-a",
